@@ -365,6 +365,35 @@ pub fn run(run: &Run) {
         }
     }
     run.exhaustive("joiners-typed-by-hand-inside-the-word", &jitems, |_| mk_local(), |c, st, lo| checked(c, lo, st));
+    // old vowel-sign order with the list and English on: a left-standing sign key pressed after a letter leaves the composed
+    // text as it is and waits - the list returned for THAT key is a list like any other (raw key text last, composed text
+    // first); then the consonant it was waiting for
+    let oitems: Vec<(char, char, usize)> = "kvhmnA".chars().flat_map(|a| "i[{".chars().flat_map(move |s| (0..4usize).map(move |o| (a, s, o)))).collect();
+    run.exhaustive(
+        "old-vowel-sign-order-with-english-every-key-judged",
+        &oitems,
+        |_| Sandbox::new(),
+        |&(a, sign, oi), st, sb| {
+            let mut opts = Opts::parse("Pfeon");
+            opts.smart = oi & 1 != 0;
+            opts.kar = oi & 2 != 0;
+            let case = || json!({"old_order_english": {"first": a.to_string(), "sign": sign.to_string(), "optset": oi}});
+            let pf = |p: crate::driver::PanicInfo| Failure::new(panic_kind(&p), p.to_string(), case());
+            let ctx = Ctx::new(opts, sb).map_err(pf)?;
+            let mut raw = String::new();
+            for ch in [a, sign, 'k', 'a'] {
+                raw.push(ch);
+                let r = ctx.ch(ch, 0).map_err(pf)?;
+                st.evals(1);
+                if r.is_empty() {
+                    continue;
+                }
+                judge(&opts, &r, &raw, false, st, &case)?;
+            }
+            st.label("old-vowel-sign-order-with-english");
+            Ok(())
+        },
+    );
     run.exhaustive("erase-and-continue-behind-a-wrapper", &eitems, |_| mk_local(), |c, st, lo| checked(c, lo, st));
     run.require_label("with-backspace-burst", 1000);
     run.require_label("word-needs-a-number-pad-key", 1);
